@@ -596,3 +596,52 @@ def joint_alternatives(I, terms, facts, depth=0, limit=64):
         if len(out) > limit:
             return [(tuple(terms), facts)]
     return out
+
+
+def halving_loops(res, owner_suffix='alloc_layout_slow'):
+    """The candidate search written as a plain loop (no iterator): loops of the slow path that carry a variable which
+    every back edge replaces by exactly half of itself.  Returns [(key, rec, var)]."""
+    out = []
+    for key, rec in res.loops.items():
+        fid = key[0]
+        if not (fid.endswith(owner_suffix) or ('::' + owner_suffix + '::{closure') in fid):
+            continue
+        for l, sym in rec['sym'].items():
+            steps = [st['env'].get(l) for st in rec['step']]
+            if steps and all(v == ('app', 'div2', sym) for v in steps):
+                out.append((key, rec, l))
+    return out
+
+
+def phi_leaves(t, limit=64):
+    """the non-phi values a (nested) merge can take"""
+    out, todo = [], [t]
+    while todo and len(out) < limit:
+        x = todo.pop()
+        if isinstance(x, tuple) and x and x[0] == 'phi':
+            todo.extend(v for _, v in x[2])
+        else:
+            out.append(x)
+    return out
+
+
+def is_reserved_pointer(I, W, resv):
+    """W is, on every alternative, the success payload of one of the reservation calls `resv` (which all ask for the same
+    layout): `fast(l).or_else(|| slow(l))`, `if let Some(p) = fast(l) { p } else { slow(l)? }`, or a single call."""
+    if not resv:
+        return False
+    lays = {e.args[1] for e in resv if len(e.args) > 1}
+    if len(lays) > 1:
+        return False
+    good = set()
+    for e in resv:
+        if e.ret is None:
+            continue
+        vs = I.variants_in(e.ret) if e.ret[0] in ('phi', 'agg') else set()
+        for v in ('Ok', 'Some'):
+            if v in vs:
+                good.update(phi_leaves(I.project_variant(None, e.ret, v, '0')))
+        if not vs & {'Ok', 'Some', 'Err', 'None'}:
+            good.update(phi_leaves(e.ret))
+    lv = phi_leaves(W)
+    return bool(lv) and all(x in good for x in lv)
